@@ -5,8 +5,8 @@
    H(R) * Ndegen(R) and must be read back as H(R). *)
 EXTENDS MC_SysStore
 CONSTANTS NDPATS
-VARIABLES par, ndp, sys, nd, tb, hr, wcc, rtb, rtbAA, rhr
-fvars == <<par, ndp, sys, nd, tb, hr, wcc, rtb, rtbAA, rhr>>
+VARIABLES par, ndp, sys, nd, tb, hr, wcc, rtb, rtbAA, rhr, tbI, rtbI
+fvars == <<par, ndp, sys, nd, tb, hr, wcc, rtb, rtbAA, rhr, tbI, rtbI>>
 NdOf(p, n) == [ir \in 1..n |-> IF p = 0 THEN 1 ELSE 1 + ((ir * p) % 3)]
 FInit == \E p \in Params : \E q \in NDPATS :
    /\ store = <<>> /\ disk = <<>> /\ hist = <<>>          \* the state machine of MC_SysStore is not used here
@@ -17,12 +17,18 @@ FInit == \E p \in Params : \E q \in NDPATS :
    /\ rtb = ReadTb(tb, FALSE, TRUE, sys.cen)
    /\ rtbAA = IF Has(sys, "AA") THEN ReadTb(tb, TRUE, FALSE, sys.cen) ELSE Fail("not applicable")
    /\ rhr = ReadHr(hr, wcc, sys.lat, FALSE, sys.cen)
+   \* convention I on both sides: to_tb_file(use_convention_II=False), from_tb_file(convention_II_to_I=False, centres passed)
+   /\ tbI = IF Has(sys, "AA") THEN TbLinesNdC(sys, nd, FALSE) ELSE <<>>
+   /\ rtbI = IF Has(sys, "AA") THEN ReadTbC(tbI, TRUE, TRUE, sys.cen, FALSE) ELSE Fail("not applicable")
 FNext == UNCHANGED <<fvars, vars>>
 FSpec == FInit /\ [][FNext]_<<fvars, vars>>
 (* C18 on files: the readers invert the writers for every Ndegen pattern *)
 TbFileInverse == rtb.err = "" /\ SameCore(sys, rtb.sys) /\ SameLattice(sys, rtb.sys) /\ SameCentres(sys, rtb.sys)
 TbFileInverseAA == Has(sys, "AA") => /\ rtbAA.err = "" /\ SameCore(sys, rtbAA.sys)
-                                     /\ (AADiagZero(sys) => SameCentres(sys, rtbAA.sys) /\ rtbAA.sys.mats["AA"] = sys.mats["AA"])
+                                     /\ (AADiagZero(sys) => SameCentres(sys, rtbAA.sys) /\ SameTable(sys, rtbAA.sys, "AA"))
+(* a file in convention I read without the conversion gives AA back whatever its diagonal is *)
+TbFileInverseConvI == Has(sys, "AA") => /\ rtbI.err = "" /\ SameCore(sys, rtbI.sys) /\ SameLattice(sys, rtbI.sys)
+                                        /\ SameCentres(sys, rtbI.sys) /\ SameTable(sys, rtbI.sys, "AA")
 HrFileInverse == rhr.err = "" /\ SameCore(sys, rhr.sys) /\ SameCentres(sys, rhr.sys)
 (* layout facts the readers rely on *)
 NdegenLayout == LET nR == Len(sys.R)  nl == (nR + 14) \div 15 IN
